@@ -63,6 +63,9 @@ type C19Case struct {
 	// Other: a second Accuracy object (constructed before (1) or after (2) the checked one)
 	// accumulates a batch of its own - two of three positions match - before every step
 	Other int `json:"other,omitempty"`
+	// Quiet: Result is not read between the steps (explicit "result" steps are skipped too),
+	// only once at the end
+	Quiet bool `json:"quiet,omitempty"`
 }
 
 func init() { register("C19/accuracy", checkC19) }
@@ -70,13 +73,18 @@ func init() { register("C19/accuracy", checkC19) }
 func genC19(t *rapid.T) C19Case {
 	var c C19Case
 	alphabet := []float64{0, 1, 2, 3}
-	switch rapid.IntRange(0, 4).Draw(t, "floats") {
+	switch rapid.IntRange(0, 5).Draw(t, "floats") {
 	case 0:
 		alphabet = []float64{-1.5, 0.25, 1e-3, 2e-3, 7, 1e6}
 	case 1: // both zeros (they are equal), labels of either sign
 		alphabet = []float64{0, math.Copysign(0, -1), 1, -1}
+	case 2: // different labels whose differences (and their squares) are far below anything ordinary
+		alphabet = []float64{1e-200, 2e-200, 0, -3e-180, 3e-180, 1e-170}
 	}
 	n := rapid.IntRange(0, 12).Draw(t, "nsteps")
+	if rapid.IntRange(0, 9).Draw(t, "longhistory") == 0 {
+		n = rapid.IntRange(20, 80).Draw(t, "nstepslong")
+	}
 	total := 0
 	for i := 0; i < n; i++ {
 		switch k := rapid.IntRange(0, 9).Draw(t, "kind"); {
@@ -122,6 +130,7 @@ func genC19(t *rapid.T) C19Case {
 	if rapid.IntRange(0, 2).Draw(t, "otherobject") == 0 {
 		c.Other = rapid.IntRange(1, 2).Draw(t, "otherwhen")
 	}
+	c.Quiet = rapid.IntRange(0, 2).Draw(t, "quiet") == 0
 	for pos := 0; pos < total; {
 		pos += rapid.IntRange(1, 9).Draw(t, "cut")
 		c.Cuts = append(c.Cuts, pos)
@@ -162,8 +171,10 @@ func checkC19(c C19Case) *Failure {
 		}
 		return nil
 	}
-	if f := read("before any call"); f != nil {
-		return f
+	if !c.Quiet {
+		if f := read("before any call"); f != nil {
+			return f
+		}
 	}
 	sizes := map[int]bool{}
 	accepted, rejected, rejectedBetween := 0, 0, false
@@ -247,9 +258,14 @@ func checkC19(c C19Case) *Failure {
 		default:
 			return nil
 		}
-		if f := read("after step " + itoa(si) + " (" + st.Kind + ")"); f != nil {
-			return f
+		if !c.Quiet {
+			if f := read("after step " + itoa(si) + " (" + st.Kind + ")"); f != nil {
+				return f
+			}
 		}
+	}
+	if f := read("at the end"); f != nil {
+		return f
 	}
 	// the same data split differently gives exactly the same result
 	twin := metrics.NewAccuracy()
@@ -279,6 +295,12 @@ func checkC19(c C19Case) *Failure {
 	evid.Eval()
 	if other != nil && otherCalls > 0 {
 		evid.Class("C19.second_object_in_use")
+	}
+	if c.Quiet && accepted >= 9 {
+		evid.Class("C19.nine_or_more_batches_without_reading_the_result")
+	}
+	if accepted >= 16 {
+		evid.Class("C19.sixteen_or_more_accepted_batches")
 	}
 	evid.ClassN("C19.accepted_batches", accepted)
 	evid.ClassN("C19.rejected_calls", rejected)
